@@ -48,7 +48,9 @@ RULE = ("cases = (family, operation + parameters, operand tree of depth 1-3 with
         "receive the same in-place growth and must answer all shape-dependent queries alike; no instance attribute added; "
         "operands that are themselves results of earlier transforms (splits, split chains, flatten+unflatten, swap, "
         "elementwise results, copies), in particular of EMPTY fibers; follow-ups that create a new top-level element and "
-        "fill it; order-sensitive merge callbacks with 3-way collisions, coordinates 9 / 10 / 100, depth 4; every payload a reader "
+        "fill it; half-owned operands (unowned top fiber above fibers a live tensor owns: slices of a root, a free fiber "
+        "holding a root, nonEmpty, fiber-level splits / flatten of an owned fiber) for every fiber-level value operation; "
+        "order-sensitive merge callbacks with 3-way collisions, coordinates 9 / 10 / 100, depth 4; every payload a reader "
         "delivers is a stored payload or a fresh object outside the operand's graph, pairwise distinct. non-trivial = value case with a non-empty operand and follow-ups on both sides, or a read case "
         "on an operand with > 12 objects")
 
@@ -301,6 +303,22 @@ def _build(case, key="t"):
         root = tensor.getRoot()
         subs = [p for p in root.payloads if isinstance(p, ft.Fiber)]
         op = subs[case.get("subidx", 0) % len(subs)] if subs else root
+    elif kind == "half":
+        # operands of MIXED ownership: an unowned top fiber above fibers a live tensor owns
+        root = tensor.getRoot()
+        how = case.get("half", "slice")
+        if how == "slice":                  # Fiber.__getitem__ with a slice: new unowned fiber, the tensor's own payloads
+            op = root[case.get("lo", 0):]
+        elif how == "wrap":                 # a free fiber holding the tensor's root as its payload
+            op = ft.Fiber([4], [root])
+        elif how == "nonempty":             # Fiber.nonEmpty: unowned copy of the top level only
+            op = root.nonEmpty()
+        elif how == "fsplit":               # Fiber-level split of an owned fiber: fresh top levels, owned levels below
+            op = root.splitUniform(2)
+        elif how == "fflatten":
+            op = root.flattenRanks() if d >= 3 else root.splitEqual(2)
+        else:
+            raise ValueError(how)
     roots = [op] + ([tensor] if tensor is not None and op is not tensor else [])
     return op, tensor, roots
 
@@ -1276,6 +1294,7 @@ def kinds_for(op, d):
     ks = ["free", "root"]
     if d >= 2:
         ks.append("sub")
+        ks.append("half")
     return ks
 
 
@@ -1403,6 +1422,9 @@ def _mk(fam, op, args, extra, d, dflt, t, kind, hseed, **kw):
          "hseed": hseed, "n": 3, "mstrict": True}
     c.update({k: v for k, v in extra.items() if k != "two"})
     c.update(kw)
+    if kind == "half" and "half" not in c:
+        c["half"] = ["slice", "wrap", "fsplit", "nonempty", "fflatten"][hseed % 5]
+        c["lo"] = hseed % 2
     return c
 
 
@@ -1508,6 +1530,25 @@ def gen_wide(tier):
                 for kind in kinds:
                     h += 1
                     yield _mk("value", op, args, {}, 2, dflt, t, kind, h, fdflt=fdflt, nfollow=4, n=4)
+    # half-owned operands: every copy-like / transforming fiber operation on every form, always run
+    htrees = [[[0, [[0, 1], [2, 2]]], [1, []], [2, [[1, 0]]]], [[1, [[1, 3]]], [3, [[0, 4], [2, 5]]]]]
+    h3 = [[0, [[0, [[0, 1], [2, 2]]], [1, [[1, 3]]]]], [2, [[2, [[0, 4]]]]]]
+    hops = [("F.copy", {"preserve": False}), ("F.copy", {"preserve": True}), ("F.deepcopy", {}),
+            ("F.splitUniform", {"step": 2, "depth": 0}), ("F.splitEqual", {"step": 1, "depth": 0}),
+            ("F.flattenRanks", {"depth": 0, "levels": 1, "style": "tuple"}),
+            ("F.mergeRanks", {"depth": 0, "levels": 1, "style": "absolute"}), ("F.swapRanks", {"depth": 0}),
+            ("F.add", {}), ("F.mul", {})]
+    for how in ("slice", "wrap", "fsplit", "nonempty", "fflatten"):
+        for ti, (d, t) in enumerate([(2, htrees[0]), (2, htrees[1]), (3, h3)]):
+            for oi, (op, args) in enumerate(hops):
+                for dflt in ((0, 7) if not quick else ((oi + ti) % 2 * 7,)):
+                    h += 1
+                    kw = {"half": how, "lo": (oi + ti) % 2, "nfollow": 4, "n": 4}
+                    if op in ("F.add", "F.mul"):
+                        kw["t2"] = t
+                    if (oi + ti) % 3 == 0:
+                        kw["twice"] = True
+                    yield _mk("value", op, args, {}, d, dflt, t, "half", h, **kw)
     # operands that are RESULTS of transforms, in particular of EMPTY fibers (their fibers carry defaults, shapes and
     # active ranges no constructor call produces, e.g. an empty Fiber INSTANCE as default of a split's upper level)
     chains = [[{"k": "splitUniform", "step": 3}], [{"k": "splitEqual", "step": 2}],
@@ -1563,7 +1604,7 @@ def gen_wide(tier):
                         continue
                     for oi, (op, args, extra) in enumerate(ops):
                         # quick: a rotating slice of the operations per (variant, tree); thorough: every operation
-                        if quick and (oi + vi + ti + d) % (7 if d <= 2 else 11):
+                        if quick and (oi + vi + ti + d) % (9 if d <= 2 else 13):
                             continue
                         if extra.get("pre") or (var.get("pre") and ("unflatten" in op or "swizzle" in op)):
                             continue
@@ -1658,7 +1699,7 @@ def gen_main(seed, tier):
             yield _mk("read", op, {}, {}, d, 0, t, "tensor" if op.startswith("T.") else "root", h, **kw)
     # ---- seeded random -----------------------------------------------------------------
     rng = random.Random(seed)
-    nrand = 1000 if quick else 24000
+    nrand = 800 if quick else 24000
     for i in range(nrand):
         d = rng.choice([1, 2, 2, 3])
         n = rng.choice([3, 4, 6])
